@@ -1840,6 +1840,7 @@ def table_theorems(run, tab, sweep_findings):
     for n in sorted(rows):
         script.append("destruct Hin as [<-|Hin]. { " + (f"exact label_class_{n}." if n in good_labels else "vm_compute in H; discriminate H.") + " }")
     script.append("destruct Hin.")
+    thms.append(("required_has_M_keys", "forallb (fun k => mem_str k required_kw) M_keys = true", "vm_compute; reflexivity."))
     thms.append(("tables_M_ok", "M_tables_ok rows bases rotation",
                  "split; [exists row_M; repeat split; reflexivity | split; [reflexivity | intro q; reflexivity]]."))
     thms.append(("all_class_facts", "forall r, In r rows -> label_row_ok rows specials r = true -> class_fact rows bases specials r",
@@ -1857,8 +1858,8 @@ def table_theorems(run, tab, sweep_findings):
     if bad_labels:
         w = bad_labels[0]
         thms.append(("name_table_ok_refuted",
-                     f"exists r l, In r rows /\\ rlabel r = Some l /\\ find_row (qibo_gate_name specials l) rows = None",
-                     f"exists row_{w}, {cstr(rows[w]['label'])}; split; [vm_compute; tauto | split; vm_compute; reflexivity]."))
+                     "exists r, In r rows /\\ (exists l, rlabel r = Some l) /\\ label_row_ok rows specials r = false",
+                     f"exists row_{w}; split; [vm_compute; tauto | split; [eexists; reflexivity | vm_compute; reflexivity]]."))
         run.refuted.append("name_table_ok")
         run.not_proved.append("name_table_ok (full): false for " + ", ".join(bad_labels) + " -- see name_table_ok_refuted; name_table_ok_partial excludes exactly these classes")
         for w in bad_labels:
@@ -1912,9 +1913,19 @@ def table_theorems(run, tab, sweep_findings):
         for t in thms:
             run.oblige(t[0], True, "generated-table-theorem")
     else:
-        # find which ones fail individually
+        # find which ones fail: each theorem alone, preceded by the (passing) theorems it uses
+        by_name = {t[0]: t for t in thms}
+        deps = {"all_class_facts": [f"label_class_{n}" for n in good_labels],
+                "qasm_roundtrip_generated_tables": [f"label_class_{n}" for n in good_labels] + ["tables_M_ok", "all_class_facts"]}
+        status = {}
         for t in thms:
-            ok1, _ = run.coq_theorems(f"thm_{t[0]}.v", HEADER + "From QV Require Import C13.Proofs.\n", [t], timeout=300)
+            need = deps.get(t[0], [])
+            if any(not status.get(d, False) for d in need):
+                status[t[0]] = False
+                run.oblige(t[0], False, "generated-table-theorem")
+                continue
+            ok1, _ = run.coq_theorems(f"thm_{t[0]}.v", HEADER + "From QV Require Import C13.Proofs.\n", [by_name[d] for d in need] + [t], timeout=300)
+            status[t[0]] = ok1
             run.oblige(t[0], ok1, "generated-table-theorem")
             if not ok1:
                 run.find(f"theorem:{t[0]}", f"generated theorem {t[0]} is no longer provable: {t[1][:300]}", {"statement": t[1]}, concrete=False)
@@ -1950,6 +1961,10 @@ def run_all(run):
     if not tab["ok"]:
         run.find("tables:gen", "generated tables do not type-check: " + tab["log"][-400:], {}, concrete=False)
         return T
+    same_ns = set(namespace()) <= from_dict_lookup_names()
+    run.oblige("every class of the table is resolvable by Gate.from_dict's own lookup (gates, measurements modules)", same_ns, "generated")
+    if not same_ns:
+        run.find("tables:namespace", "Gate.from_dict looks classes up in a different namespace than the table", {"missing": sorted(set(namespace()) - from_dict_lookup_names())}, concrete=False)
     unm = sorted(n for n, r in tab["rows"].items() if not r["modelled"] and n not in ABSTRACT)
     T["classes"] = len(tab["rows"])
     T["classes_outside_constructor_model"] = {n: tab["rows"][n]["why"] for n in unm}
@@ -1971,15 +1986,30 @@ def run_all(run):
     table_theorems(run, tab, {f.key for f in run.findings})
     # static theorems
     ok, ass = vcore.static_assumptions("C13/Props")
-    for t in vcore.props_theorems("C13/Props.v"):
+    names = vcore.props_theorems("C13/Props.v")
+    for t in names:
         run.oblige(t, ok, "static-theorem")
-        if t.endswith("_refuted"):
-            pass
-    if ok:
+        if "_refuted" in t:
+            run.refuted.append(t.split("_refuted")[0] + " (full statement; witness: " + t + ")")
+    if not ok:
+        run.find("static:C13/Props", "Print Assumptions over C13/Props.vo failed (static development does not build)", {}, concrete=False)
+    else:
         for t, a in ass.items():
             if not a.startswith("Closed"):
                 run.axioms.add(a[:120])
         T["static_print_assumptions"] = {t: a[:80] for t, a in ass.items()}
+    if run.tier == "thorough":
+        rc, out = vcore.sh("timeout 1200 coqchk -silent -o -Q theories QV QV.C13.Props", cwd=vcore.COQ, timeout=1300)
+        run.checker_cmds.append("coqchk -silent -o -Q theories QV QV.C13.Props")
+        good = rc == 0 and "Axioms: <none>" in out
+        run.oblige("coqchk QV.C13.Props (kernel re-check, no axioms)", good, "coqchk")
+        if not good:
+            run.find("static:coqchk", "coqchk failed or reported axioms: " + out[-400:], {}, concrete=False)
+    T["differences_outside_the_property_text_not_counted"] = [
+        "through QASM: density_matrix flag, wire_names, bit-flip probabilities (p0/p1) of M, M basis (its rotations are exported as gates), python int parameters become floats, order of control qubits (sorted), position of non-collapsing measurements (moved to the end)",
+        "through dictionaries: trainable=False becomes True, Unitary name/check_unitary",
+        "importer behaviour on hand-written programs (parenthesised expressions, expressions of formal parameters inside `gate` bodies, partially measured registers): see importer_observations_outside_property_text",
+        "ill-formed inputs: control qubits >= nqubits are accepted by Circuit.add and exported; non-finite parameters (inf/nan) are exported as `rx(inf)` and read back as the string 'inf'"]
     run.notes.update(T)
     for k in ("model_skipped",):
         if k in run.notes:
@@ -1991,7 +2021,7 @@ def run_all(run):
 def main(run):
     run_all(run)
     run.not_proved += ["qasm_roundtrip (full): refuted by collapsing measurements (qasm_roundtrip_refuted) and by the iSWAP label; proved: qasm_roundtrip_partial",
-                       "circuit_dict_roundtrip (full): refuted by measurement bases other than Z (circuit_dict_roundtrip_refuted)",
+                       "circuit_dict_roundtrip (full): refuted by measurement bases other than Z (circuit_dict_roundtrip_refuted); proved: circuit_dict_roundtrip_partial (per-gate hypothesis discharged by raw_roundtrip_<C> / M_raw_dict_roundtrip)",
                        "result_roundtrip (full): refuted when only frequencies were computed (result_roundtrip_refuted)",
                        "text layer (float printing/parsing, openqasm3, json, numpy files), custom gate definitions and parameter expressions: exercised by the real round trips, not proved"]
     return run.finish(level="proof", rule=RULE)
